@@ -181,6 +181,6 @@ Proof. eexists. split; [vm_compute; reflexivity|]. vm_compute. reflexivity. Qed.
    guard.  A source that moves `closed` out of the mutex or closes without the lock (lost wake-up: a waiter can
    test the flag, be overtaken by close, and sleep forever) flips a constant and this statement stops checking. *)
 Theorem source_has_model_shape :
-  q_state_under_one_mutex = 1 /\ q_close_under_lock = 1 /\ q_wait_loops = 1.
+  q_state_under_one_mutex = 1%N /\ q_close_under_lock = 1%N /\ q_wait_loops = 1%N.
 Proof. repeat split; reflexivity. Qed.
 Print Assumptions source_has_model_shape.
